@@ -264,3 +264,21 @@ def two_hashes_same_seed(c, curve, h1, h2):
         res.append(seq_eq(kek1, kek2))
     c.check(all_of(res), "history: second derivation agrees")
     return True
+
+
+@harness(P, bounds="defaults of KeyCache.load_key (what an offline root key means when nothing else is said): secret agreement DH over the RFC 5114 section 2.3 group (p, g transcribed "
+         "independently and self-checked through g^q = 1 mod p), key_length 256, private / public key length 512 / 2048, KDF SP800_108_CTR_HMAC with SHA512; the KEK that a "
+         "reference-encoded ephemeral key in that group yields is accepted (not refused as a foreign group)", must_reach=("defaults: the root key's DH group is RFC 5114 2.3",))
+def default_dh_group(c):
+    import uuid
+
+    import dpapi_ng
+
+    cache = dpapi_ng.KeyCache()
+    rk = uuid.UUID(int=5)
+    c.call(cache.load_key, c.bytes("root", 64), rk)
+    r = cache._root_keys[rk]
+    want = refs.ref_ffcdh_parameters(256, refs.RFC5114_2_3_P, refs.RFC5114_2_3_G)
+    c.check(all_of([seq_eq(r.secret_parameters, want), r.secret_algorithm == "DH", r.private_key_length == 512, r.public_key_length == 2048, r.kdf_algorithm == "SP800_108_CTR_HMAC",
+                    seq_eq(r.kdf_parameters, refs.ref_kdf_parameters("SHA512")), r.version == 1]), "defaults: the root key's DH group is RFC 5114 2.3")
+    return True
